@@ -197,6 +197,8 @@ void for_each_n(TaskSetT& tasks, Iter start, size_t n, F&& f, ForEachOptions opt
   ssize_t numThreads = std::min<ssize_t>(tasks.numPoolThreads() + options.wait, maxThreads);
   // Reduce threads used if they exceed work to be done.
   numThreads = std::min<ssize_t>(numThreads, n);
+  // A zero-thread pool with wait == false would otherwise yield zero chunks (division by zero below).
+  numThreads = std::max<ssize_t>(numThreads, 1);
 
   auto chunking = detail::staticChunkSize(n, numThreads);
   size_t chunkSize = chunking.ceilChunkSize;
